@@ -209,7 +209,8 @@ def record_run(sp, rs, k):
     A, b, x0 = random_system(rs, n, cplx, cond)
     # conjugate gradients are scale-equivariant (A -> sa A, b -> sb b maps the iterates x_k -> (sb/sa) x_k): every clause is
     # relative, so half of the runs are rescaled by many orders of magnitude (tiny right-hand sides, tiny / huge operators)
-    sa, sb = [(1.0, 1.0), (1.0, 1.0), (1.0, 1e-9), (1e-6, 1e-6), (1e6, 1.0), (1.0, 1e8), (1e-7, 1e-12), (1.0, 1.0)][k % 8]
+    sa, sb = [(1.0, 1.0), (1.0, 1.0), (1.0, 1e-9), (1e-6, 1e-6), (1e6, 1.0), (1.0, 1e8), (1e-7, 1e-12), (1.0, 1.0),
+              (2.0 ** -60, 2.0 ** -60), (1e-20, 1.0), (1e18, 1e-3), (1.0, 1.0)][k % 12]     # (operators whose norm is far below machine epsilon in absolute terms)
     A, b, x0 = A * sa, b * sb, x0 * (sb / sa)
     mode = int(rs.randint(0, 3))
     if mode == 0:
@@ -243,7 +244,12 @@ def record_run(sp, rs, k):
         x[:] = x0
     else:
         x = x0.copy()
-    xstar = np.linalg.solve(A, b)
+    bkind = ["same", "same", "same", "real_b", "b32"][(k // 3) % 5]
+    if bkind == "real_b" and cplx:
+        b = np.real(b).copy()                                    # a real right-hand side of a complex Hermitian system is valid data
+    elif bkind == "b32" and sa == 1.0 and sb == 1.0:
+        b = (b.astype(np.complex64) if cplx else b.astype(np.float32))      # single-precision data, double-precision system and unknown
+    xstar = np.linalg.solve(A, b.astype(A.dtype))
     anorm = lambda e: float(np.sqrt(max(np.real(np.vdot(e, A @ e)), 0.0)))
     e0 = anorm(xstar - x0)
     alg = sp.alg.ConjugateGradient(Aop, b, x, P=P, max_iter=max_iter, tol=0)
@@ -271,7 +277,7 @@ def record_run(sp, rs, k):
     # conditioned systems; beyond that (measured: 5e-2 left at n = 12, cond(A) = 366 with a random HPD preconditioner) only the
     # monotone decrease of the A-norm error is required at step n
     exact_tol = 10000 if (n <= 6 and cond <= 100 and mode != 2) else 1000000000
-    return {"id": "cg%d" % k, "n": n, "max_iter": max_iter, "exact_tol": exact_tol, "ev": ev, "meta": {"complex": cplx, "cond": round(cond, 2), "precond": mode, "linop": use_linop, "scale_A": sa, "scale_b": sb, "layout": layout}}
+    return {"id": "cg%d" % k, "n": n, "max_iter": max_iter, "exact_tol": exact_tol, "ev": ev, "meta": {"complex": cplx, "cond": round(cond, 2), "precond": mode, "linop": use_linop, "scale_A": sa, "scale_b": sb, "layout": layout, "b_kind": bkind}}
 
 
 def run(ctx):
